@@ -11,6 +11,7 @@ import (
 	"encoding/json"
 	"errors"
 	"fmt"
+	"runtime"
 	"strings"
 	"sync"
 	"time"
@@ -105,6 +106,9 @@ type Env struct {
 	counter  int
 	crashAt  int // >0: panic when the crashAt-th effect is about to be recorded... (0 = never)
 	nEffects int
+	// additive (crash steps): when set, the simulated crash ends the calling goroutine (runtime.Goexit) instead of
+	// panicking, for entry points that run the machine on a goroutine of their own (RecoverSwaps)
+	crashExit bool
 }
 
 type crashSignal struct{}
@@ -130,6 +134,9 @@ func (e *Env) effect(term string, js interface{}) {
 	e.nEffects++
 	if e.crashAt > 0 && e.nEffects >= e.crashAt {
 		e.mu.Unlock()
+		if e.crashExit {
+			runtime.Goexit()
+		}
 		panic(crashSignal{})
 	}
 	e.effects = append(e.effects, term)
